@@ -891,6 +891,9 @@ def burst_plan(rng, n, p_cancel=0.12):
             t, m = rng.choice([b"/echo", b"/echo", b"/echo20k"]), b"POST"
             body = b"stream-%d-" % s + rand_body(rng, rng.choice([3, 40, 2000, 2000, 40000, 70000]))
             hs.append((b"content-length", b"%d" % len(body)))
+            if rng.random() < p_cancel:
+                # cancelled while the request body is on its way / being read
+                hs.append((CANCEL, b"%d" % rng.choice([0, 1, 5, 30])))
         else:
             # a body that is read in part or not at all, among the other streams
             t = rng.choice([b"/echo3", b"/echo100", b"/p", b"/f.txt", b"/missing", rng.choice(slow)[0]])
